@@ -302,7 +302,9 @@ impl From<TypeNodeId> for StateType {
             ),
             Type::Tuple(elems) => StateType(elems.iter().map(|ty| ty.word_size() as u64).sum()),
             Type::Array(_elem_ty) => StateType(1),
-            _ => todo!(),
+            // every other value occupies its word size (strings and boxed values one word,
+            // variant values their tag and payload words)
+            _ => StateType(t.word_size() as u64),
         }
     }
 }
